@@ -2347,9 +2347,9 @@ impl<'a> Parser<'a> {
                 field_name: Some(field_name),
                 field_type,
             })
-        });
+        })?;
         self.expect_token(&Token::RParen)?;
-        struct_body
+        Ok(struct_body)
     }
 
     /// Parse a field definition in a [struct] or [tuple].
@@ -7790,6 +7790,7 @@ impl<'a> Parser<'a> {
     fn parse_data_type_helper(
         &mut self,
     ) -> Result<(DataType, MatchedTrailingBracket), ParserError> {
+        let _guard = self.recursion_counter.try_decrease()?;
         let next_token = self.next_token();
         let mut trailing_bracket: MatchedTrailingBracket = false.into();
         let mut data = match next_token.token {
